@@ -31,6 +31,11 @@ enum Class {
     StatusRetryAfter,
     Unparseable,
     Forged,
+    /// first attempt fails in transit, the retry is answered with a parsed document (no retry, hence a
+    /// plain transport failure, when a poll interval is in force)
+    ParsedAfterRetry,
+    /// first attempt HTTP 503, second attempt fails in transit, third is unparseable
+    UnparseableAfterRetries,
 }
 
 struct D {
@@ -42,6 +47,7 @@ struct D {
     class: Option<Class>,
     doc: Option<Vec<AppDoc>>,
     reboot_asked: usize,
+    attempt: usize,
     last_session: Option<usize>,
 }
 
@@ -96,7 +102,9 @@ impl Director for D {
             self.class = None;
             self.doc = None;
             self.reboot_asked = 0;
+            self.attempt = 0;
         }
+        self.attempt += 1;
         if self.class.is_none() && self.multi {
             self.class = Some(Class::Parsed);
         }
@@ -104,11 +112,20 @@ impl Director for D {
             let classes: &[Class] = if self.cup {
                 &[Class::Parsed, Class::Forged, Class::Unparseable, Class::Transport]
             } else {
-                &[Class::Parsed, Class::Transport, Class::Status, Class::Unparseable, Class::StatusRetryAfter]
+                &[Class::Parsed, Class::Transport, Class::Status, Class::Unparseable, Class::StatusRetryAfter, Class::ParsedAfterRetry, Class::UnparseableAfterRetries]
             };
             self.class = Some(classes[w.choose("uc.class", classes.len())]);
         }
-        match self.class.unwrap() {
+        let class = match (self.class.unwrap(), self.attempt) {
+            (Class::ParsedAfterRetry, 1) => Class::Transport,
+            (Class::ParsedAfterRetry, _) => Class::Parsed,
+            (Class::UnparseableAfterRetries, 1) => Class::Status,
+            (Class::UnparseableAfterRetries, 2) => Class::Transport,
+            (Class::UnparseableAfterRetries, _) => Class::Unparseable,
+            (c, _) => c,
+        };
+        match class {
+            Class::ParsedAfterRetry | Class::UnparseableAfterRetries => unreachable!(),
             Class::Transport => HttpAns::Transport,
             Class::Status => HttpAns::Resp(RespSpec::ok(b"nope".to_vec()).status(503)),
             Class::StatusRetryAfter => HttpAns::Resp(RespSpec::ok(b"nope".to_vec()).status(503).header("X-Retry-After", b"120")),
@@ -203,6 +220,7 @@ fn run_iter(ctx: &RunCtx, tier: Tier, cup: bool, multi: bool, iterations: usize)
         class: None,
         doc: None,
         reboot_asked: 0,
+        attempt: 0,
         last_session: None,
     };
     let mut e = Exec::new(s, Box::new(d), store0);
@@ -756,7 +774,7 @@ fn parts(tier: Tier) -> Vec<PartDef> {
             "flow-nocup",
             Cfg::new("C04/flow-nocup"),
             json!({"apps": tier.pick("1..2", "1..3"), "response_len": tier.pick("0..2", "0..3"), "statuses": STATUSES,
-                   "classes": ["parsed","transport","http-status","http-status + X-Retry-After","unparseable","bad service url"], "stored_poll_interval": [false, true], "policy": 3, "plan": 2,
+                   "classes": ["parsed","transport","http-status","http-status + X-Retry-After","unparseable","parsed after a failed attempt","unparseable after two failed attempts","bad service url"], "stored_poll_interval": [false, true], "policy": 3, "plan": 2,
                    "installer_per_app": 3, "reboot_needed": 2, "reboot_allowed": ["t","f,t"], "modes": ["oneshot","start (1 iteration)"],
                    "exploration": "full product"}),
             move |ctx| run_one(ctx, tier, false, false),
